@@ -130,9 +130,13 @@ class Renaming(Harness):
         dom0 = RA.parse_domain_text(text)
         pobjs = {n: PDDLObject(n, dom.types[t]) for n, t in G.OBJECTS.items()}
         _, all_fls = G.ground_atoms(G.OBJECTS)
+        spec_eff = PS.sem_eff(SX.read_text(inp["eff"]), G.PREDS, G.FUNCS)
         for facts in ([], [("p", ("o1",)), ("g", ())], [("p", ("o2",)), ("q", ("o2",)), ("r", ("o2", "o2"))]):
             for args in (["o2", "o2"], ["o1", "o2"]):
                 fl = {k: 1.0 for k in all_fls}
+                groups = SEM.firing_groups(spec_eff, {"?x": args[0], "?y": args[1]}, (frozenset(facts), fl), dict(G.OBJECTS), G.TYPES_DECL)
+                if not SEM.consistent(groups):
+                    continue          # the same fluent assigned twice / add-delete clash: outcome is order dependent by definition
                 a = RA.outcome(Operator(act, dom, args, pobjs).apply, RA.make_state(dom, facts, fl), True)
                 b = RA.outcome(Operator(dom0.actions["act"], dom0, args, pobjs).apply, RA.make_state(dom0, facts, fl), True)
                 av = V.v_state(a[1]) if a[0] == "ok" else a
@@ -155,7 +159,7 @@ def _cs_contract(cls):
         prop="C18", params={"self": ("ref", cls), "old_to_new_param_names": ("ref", "dict_str_str")}, returns="none", allocates=False,
         dict_values={"dict_str_ref": "PDDLType"},
         requires=[
-            "self.signature != old_to_new_param_names",
+            "self.signature != old_to_new_param_names", "allocated(self.signature)",
             # the map is injective on the parameters of this signature (names it does not mention stay as they are)
             "forall_int(lambda i: forall_int(lambda j: implies(i != j, "
             + _RHO.format(k="self.signature.keys()[i]") + " != " + _RHO.format(k="self.signature.keys()[j]") + "), 0, len(self.signature.keys())), 0, len(self.signature.keys()))"],
